@@ -25,7 +25,7 @@ func init() {
 		Header:   "From Coq Require Import Uint63.\nFrom ZenoV Require Import Lib.Harness Rate.Bucket Rate.Manager Rate.RateHarness.\nOpen Scope string_scope.\nOpen Scope list_scope.\nOpen Scope uint63_scope.\n",
 		CaseType: "mcase",
 		Footer:   "\nDefinition DIFF := Eval vm_compute in mdiffs cases.\nPrint DIFF.\nDefinition MON := Eval vm_compute in mmons cases.\nPrint MON.\n",
-		Rule: "one case = (maxBuckets, capacity, rate, 8-40 events w(ait host)/f(ail host status)/s(ucc host)/b(urst host n) over 2-6 hosts) " +
+		Rule: "one case = (maxBuckets, capacity, rate, 8-40 events w(ait host)/f(ail host status)/s(ucc host)/b(urst host n)/m(ixed concurrent wait+fail+succ) over 2-6 hosts) " +
 			"run on a fresh real BucketManager; distinct by input text; non-trivial when a bucket was evicted and some Wait had to block",
 		Gen:    genMgr,
 		Exec:   func(in string) Result { return cachedExec("mgr", 48, execMgr, in) },
@@ -61,6 +61,10 @@ func genMgr(r *Rng, i int, tier string) string {
 			ops = append(ops, fmt.Sprintf("b%d:%d", h, 2+r.Intn(7)))
 		case k < 80:
 			ops = append(ops, fmt.Sprintf("s%d", h))
+		case k < 84 && fives < 1:
+			// concurrent Waits + one AdjustOnFailure(503) + OnSuccess calls on one bucket
+			fives++
+			ops = append(ops, fmt.Sprintf("m%d:%d,%d", h, 2+r.Intn(5), 1+r.Intn(4)))
 		case k < 88 && fives < 1:
 			fives++
 			ops = append(ops, fmt.Sprintf("f%d:%d", h, []int{500, 503, 502}[r.Intn(3)]))
@@ -115,7 +119,7 @@ func execMgr(in string) Result {
 	host := func(s string) string { return "h" + s }
 
 	var evs []string
-	evictions, blocked, throttles := 0, 0, 0
+	evictions, blocked, throttles, mixes := 0, 0, 0, 0
 	evicted := map[string]bool{}
 	reused := false
 	prev := map[string]int{}
@@ -197,6 +201,34 @@ func execMgr(in string) Result {
 			wg.Wait()
 			blocked++
 			evs = append(evs, fmt.Sprintf("EB %s %s %s", coqStr(h), coqIvs(ivs), coqSnap(after(h))))
+		case 'm':
+			a, b, _ := strings.Cut(arg, ",")
+			nw, _ := strconv.Atoi(a)
+			ns, _ := strconv.Atoi(b)
+			if _, ok := prev[h]; !ok {
+				wait(h)
+			}
+			ivs := make([]string, nw)
+			var wg sync.WaitGroup
+			for k := 0; k < nw; k++ {
+				wg.Add(1)
+				go func(k int) {
+					defer wg.Done()
+					t0 := since()
+					bm.Wait(h)
+					t1 := since()
+					ivs[k] = fmt.Sprintf("%s %s", uz(t0), uz(t1))
+				}(k)
+			}
+			wg.Add(1 + ns)
+			go func() { defer wg.Done(); bm.AdjustOnFailure(h, 503) }()
+			for k := 0; k < ns; k++ {
+				go func() { defer wg.Done(); bm.OnSuccess(h) }()
+			}
+			wg.Wait()
+			blocked++
+			mixes++
+			evs = append(evs, fmt.Sprintf("EM %s %s %d %s", coqStr(h), coqIvs(ivs), 1+ns, coqSnap(after(h))))
 		}
 	}
 	var tags []string
@@ -209,6 +241,9 @@ func execMgr(in string) Result {
 	}
 	if throttles > 0 {
 		tags = append(tags, "throttle(real-time-penalty)")
+	}
+	if mixes > 0 {
+		tags = append(tags, "concurrent-wait/fail/succ")
 	}
 	return Result{
 		Term:       fmt.Sprintf("MC %s %s %s %s", coqZi(int64(maxB)), coqFl(capv), coqFl(rate), coqList(evs)),
